@@ -461,8 +461,9 @@ def rule_S3(ctx: Ctx, fam: str) -> None:
                             'uniform-root pattern: members of the group would name different roots', c)
 
 
-SET_RE = re.compile(r'^(builtins\.set|builtins\.frozenset|typing\.AbstractSet|typing\.Set|typing\.FrozenSet)\[(.*)\]$')
-DET_ELEM = re.compile(r'^(builtins\.int|builtins\.bool|builtins\.frozenset\[builtins\.int\]|builtins\.tuple\[(builtins\.int(, )?)+(\.\.\.)?\]|Tuple\[(builtins\.int(, )?)+\])$')
+SET_RE = re.compile(r'^(?:builtins\.|typing\.)?(?:set|frozenset|AbstractSet|Set|FrozenSet)\[(.*)\]$')
+_INT = r'(?:builtins\.)?(?:int|bool)'
+DET_ELEM = re.compile(rf'^(?:{_INT}|(?:builtins\.)?frozenset\[{_INT}\]|(?:builtins\.)?tuple\[(?:{_INT}(?:, )?)+(?:\.\.\.)?\]|Tuple\[(?:{_INT}(?:, )?)+\])$')
 
 
 def set_order_problem(ctx: Ctx, mod: str, it: ast.expr) -> str | None:
@@ -474,7 +475,7 @@ def set_order_problem(ctx: Ctx, mod: str, it: ast.expr) -> str | None:
     m = SET_RE.match(t)
     if not m:
         return None
-    if DET_ELEM.match(m.group(2).strip()):
+    if DET_ELEM.match(m.group(1).strip()):
         return None
     return f'{norm(it)} has type {t}: iteration order depends on the per-process hash seed'
 
